@@ -165,7 +165,7 @@ Doc(ev) ==
 \* documents whose size sits on a 16-bit header boundary: header bytes from the specification's
 \* ladder (which MsgPackMC checks to be a legal, decodable encoding), payload compared by the harness
 Bulk(ev) ==
-  LET head == CASE ev.kind = "s" -> StrHeader(ev.n)
+  LET head == CASE ev.kind \in {"s", "sl"} -> StrHeader(ev.n)
                 [] ev.kind = "a" -> (IF ev.n < 16 THEN <<144 + ev.n>> ELSE IF ev.n < 65536 THEN <<220>> \o U16(ev.n) ELSE <<221>> \o U32(ev.n))
                 [] ev.kind = "o" -> (IF ev.n < 16 THEN <<128 + ev.n>> ELSE IF ev.n < 65536 THEN <<222>> \o U16(ev.n) ELSE <<223>> \o U32(ev.n))
   IN
@@ -174,7 +174,8 @@ Bulk(ev) ==
                                       /\ Require(ev.mppayload, "MessagePack payload differs"))
   /\ IF Focus # "C02" THEN TRUE ELSE Require(ev.jsonok, "JSON text of a large document differs")
   /\ IF Focus = "C07" THEN TRUE ELSE Require(ev.counts, "counts / measure differ for a large document")
-  /\ IF Focus # "C07" THEN TRUE ELSE Require(ev.rtmp, "MessagePack round trip of a large document is not byte-identical")
+  \* "sl" = a string kept by address: it may be longer than a document can store, so it cannot come back
+  /\ IF Focus # "C07" \/ (ev.kind = "sl" /\ ev.n > 65535) THEN TRUE ELSE Require(ev.rtmp, "MessagePack round trip of a large document is not byte-identical")
 
 Init == l = 1
 Next == l <= Len(TraceLog) /\ l' = l + 1 /\ (IF TraceLog[l].cls = "bulk" THEN Bulk(TraceLog[l]) ELSE Doc(TraceLog[l]))
